@@ -1749,6 +1749,9 @@ class FDE:
                 return self.stub(n, None, args, kwargs)       # a local function the rule replaces by a stand-in
             if n in env and isinstance(env[n], tuple) and env[n] and env[n][0] == 'closure':
                 return self._invoke(env[n][1], args, kwargs, base_env=env[n][2])
+            if n in env and isinstance(env[n], tuple) and len(env[n]) == 2 and env[n][0] == 'class' and env[n][1] in self.constructors:
+                self.effects.append(('instantiate', env[n][1], tuple(args), tuple(sorted(kwargs.items(), key=lambda kv: kv[0]))))
+                return self.constructors[env[n][1]](*args, **kwargs)       # a class imported into the function, constructed by the rule's stand-in
             if n in env and isinstance(env[n], tuple) and len(env[n]) == 2 and env[n][0] == 'class' and env[n][1] in ('list', 'tuple', 'dict') and len(args) == 1 and not kwargs and isinstance(args[0], Obj):
                 return Opaque('%s(%s)' % (env[n][1], args[0].name))       # `kind = list if ... else tuple; kind(node)`: as the direct call
             if n in env and isinstance(env[n], tuple) and len(env[n]) == 2 and env[n][0] == 'class' and env[n][1] in self.repo.classes and env[n][1] not in self.stubs and self._plain_class(env[n][1]):
